@@ -359,7 +359,7 @@ class Session(BusSession):
 
 def run(ctx):
     quick = ctx.tier == 'quick'
-    depth = 7 if quick else 9
+    depth = 7 if quick else 10
     st = explore.bfs(ctx, FACTORY, {'small': quick}, max_depth=depth, ops_chunk=10)
     ctx.coverage.update({
         'states': st['states'], 'transitions': st['transitions'], 'traces_validated_against_impl': st['transitions'],
